@@ -531,9 +531,12 @@ Lemma eval_method_eq ctx a x name args ns r :
   eval_list ctx args r1 (fun vs r2 =>
     match ns, v with
     | true, VNil => Done VNil r2
-    | _, _ => lift (aloc a) r2 (fetch_fn fe v name) (fun id => do_call fe (aloc a) false id v vs r2)
+    | _, _ => if ns && fetch_fn_zero v name then Done VNil r2
+              else lift (aloc a) r2 (fetch_fn fe v name) (fun id => do_call fe (aloc a) false id v vs r2)
     end)).
 Proof. reflexivity. Qed.
+
+Local Arguments fetch_fn_zero : simpl never.
 
 Lemma eval_array_eq ctx a es r :
   ev ctx (EArray a es) r =
@@ -610,16 +613,20 @@ Proof.
       eapply star_trans; [exact Pre|]. eapply star_step.
       { unfold VM.step; cbn [VM.pc VM.stk VM.scs VM.rs]; rewrite Hi; cbn. rewrite Hpop. reflexivity. }
       done_pc. }
+    all: cbn [andb]; match goal with |- context[fetch_fn_zero ?V ?N] => destruct (fetch_fn_zero V N) eqn:Ez end; cbn beta iota.
+    (* FetchFnNil gave the zero Value (nil entry of the map): nil *)
+    all: try solve [ eapply star_trans; [exact Pre|]; eapply star_step;
+          [ unfold VM.step; cbn [VM.pc VM.stk VM.scs VM.rs]; rewrite Hi; cbn [isize]; rewrite Hpop; cbn beta iota; rewrite Ez; reflexivity | done_pc ] ].
     all: match goal with |- context[fetch_fn fe ?V ?N] =>
       destruct (fetch_fn fe V N) as [id|e] eqn:Ef; cbn [lift];
       [ destruct (do_call fe (aloc a) false id V vs r1) as [w r2|e2 l2 r2] eqn:Ed;
         [ eapply star_trans; [exact Pre|]; eapply star_step;
-          [ unfold VM.step; cbn [VM.pc VM.stk VM.scs VM.rs]; rewrite Hi; cbn [isize]; rewrite Hpop; cbn beta iota; rewrite Ef; unfold of_result; rewrite Ed; reflexivity | done_pc ]
+          [ unfold VM.step; cbn [VM.pc VM.stk VM.scs VM.rs]; rewrite Hi; cbn [isize]; rewrite Hpop; cbn beta iota; rewrite Ez; cbn beta iota; rewrite Ef; unfold of_result; rewrite Ed; reflexivity | done_pc ]
         | eapply crash_trans; [exact Pre|]; apply crash_now;
-          unfold VM.step; cbn [VM.pc VM.stk VM.scs VM.rs]; rewrite Hi; cbn [isize]; rewrite Hpop; cbn beta iota; rewrite Ef; unfold of_result; rewrite Ed; reflexivity ]
+          unfold VM.step; cbn [VM.pc VM.stk VM.scs VM.rs]; rewrite Hi; cbn [isize]; rewrite Hpop; cbn beta iota; rewrite Ez; cbn beta iota; rewrite Ef; unfold of_result; rewrite Ed; reflexivity ]
       | eapply crash_trans; [exact Pre|]; apply crash_now;
-        unfold VM.step; cbn [VM.pc VM.stk VM.scs VM.rs]; rewrite Hi; cbn [isize]; rewrite Hpop; cbn beta iota; rewrite Ef; reflexivity ] end.
-  - cbn beta iota.
+        unfold VM.step; cbn [VM.pc VM.stk VM.scs VM.rs]; rewrite Hi; cbn [isize]; rewrite Hpop; cbn beta iota; rewrite Ez; cbn beta iota; rewrite Ef; reflexivity ] end.
+  - cbn beta iota. cbn [andb].
     destruct (fetch_fn fe v name) as [id|e] eqn:Ef; cbn [lift].
     + destruct (do_call fe (aloc a) false id v vs r1) as [w r2|e l r2] eqn:Ed.
       * eapply star_trans; [exact Pre|]. eapply star_step.
